@@ -20,6 +20,14 @@ Run == /\ l <= Len(Rec) /\ Rec[l].e = "wl"
             /\ (e.limit >= e.final_size => Success(e))         \* no spurious failure
             /\ (e.limit < e.final_size => ~e.file_complete)    \* sanity: the limit really bites
        /\ l' = l + 1
-TraceNext == Run
+\* serialize::serialize_to on a file that cannot grow beyond `limit` bytes (or on /dev/full): an error is returned -
+\* never a panic, never Ok for an incomplete file - and nothing fails when the file can take the structure
+To == /\ l <= Len(Rec) /\ Rec[l].e = "st"
+      /\ LET e == Rec[l] IN
+           /\ e.result \in {"ok", "err"}
+           /\ (e.result = "ok" => e.file_complete)
+           /\ (e.limit >= e.size => e.result = "ok")
+      /\ l' = l + 1
+TraceNext == Run \/ To
 TraceSpec == TraceInit /\ [][TraceNext]_vars
 =============================================================================
